@@ -697,3 +697,113 @@ func corpusChains() []corpusChain {
 	es2 = append(es2, audgen.Event{Kind: "final", TsHalf: 12})
 	return []corpusChain{{cfg: c, events: es}, {cfg: c2, events: es2}}
 }
+
+// ---------------------------------------------------------------- processAssignments directly
+
+// assignClause is one clause of the auditor under test.
+type assignClause struct {
+	Target string
+	Mode   string
+	N      int
+	E      *audgen.Expr
+	Deps   []string // input variables the expression mentions
+}
+
+type assignCfg struct {
+	Inputs  []string
+	Clauses []assignClause
+	Flat    bool
+}
+
+func (c *assignCfg) text() string {
+	var b strings.Builder
+	b.WriteString("role r\n  :noop true\nend\ncast\n  x plays r\nend\naudience\n")
+	for _, in := range c.Inputs {
+		b.WriteString("  zz computes " + in + " as t\n")
+	}
+	for _, cl := range c.Clauses {
+		if cl.Mode == "single" {
+			fmt.Fprintf(&b, "  al computes %s as %s\n", cl.Target, cl.E.Src())
+		} else {
+			fmt.Fprintf(&b, "  al collects %s as %s %d %s\n", cl.Target, cl.Mode, cl.N, cl.E.Src())
+		}
+	}
+	b.WriteString("end\n")
+	return b.String()
+}
+
+func assignConfig(r *rand.Rand) *assignCfg {
+	c := &assignCfg{Inputs: []string{"q1", "q2"}, Flat: r.Intn(10) < 7}
+	n := 1 + r.Intn(3)
+	type tv struct {
+		name string
+		arr  bool
+	}
+	var targets []tv
+	for i := 0; i < n; i++ {
+		cl := assignClause{Target: fmt.Sprintf("d%d", i+1)}
+		q := c.Inputs[r.Intn(2)]
+		qv := audgen.V("", q)
+		if !c.Flat && len(targets) > 0 && r.Intn(3) != 0 {
+			// a clause over an earlier target of the same member
+			src := targets[r.Intn(len(targets))]
+			sv := audgen.V("", src.name)
+			if src.arr {
+				cl.E = audgen.Call([]string{"count", "max", "first", "last", "sum"}[r.Intn(5)], sv)
+			} else if r.Intn(2) == 0 {
+				cl.E = sv
+			} else {
+				cl.E = audgen.Call("count", sv, qv)
+				cl.Deps = []string{q}
+			}
+		} else {
+			switch r.Intn(9) {
+			case 0, 1:
+				cl.E = qv
+			case 2, 3, 4:
+				cl.E = audgen.Call([]string{"first", "last", "max", "min", "sum", "avg", "med"}[r.Intn(7)], qv)
+			case 5:
+				cl.E = audgen.Call("count", qv)
+			case 6:
+				cl.E = audgen.Call([]string{"max", "first", "last", "sum"}[r.Intn(4)], audgen.V("", "q1"), audgen.V("", "q2"))
+				cl.Deps = []string{"q1", "q2"}
+			case 7:
+				cl.E = audgen.Bin("+", qv, audgen.Num(1))
+			default:
+				cl.E = audgen.Call("abs", audgen.Call("first", qv))
+			}
+			if cl.Deps == nil {
+				cl.Deps = []string{q}
+			}
+		}
+		if r.Intn(3) == 0 {
+			cl.Mode = "single"
+		} else {
+			cl.Mode = []string{"first", "last", "top", "bottom"}[r.Intn(4)]
+			cl.N = 1 + r.Intn(4)
+		}
+		c.Clauses = append(c.Clauses, cl)
+		targets = append(targets, tv{cl.Target, cl.Mode != "single"})
+	}
+	return c
+}
+
+// assignInput draws the value an input is set to in a step (never nil: a
+// variable cannot be activated with nil).
+func assignInput(r *rand.Rand, g *valGen) interface{} {
+	switch r.Intn(10) {
+	case 0, 1:
+		return []interface{}{}
+	case 2, 3, 4, 5:
+		g.pNil, g.pStr, g.pArr = 0, 0, 0
+		return g.values(1 + r.Intn(4))
+	case 6:
+		return r.Intn(2) == 0
+	case 7:
+		if r.Intn(3) == 0 {
+			return strPool[r.Intn(len(strPool))]
+		}
+		return g.pool[r.Intn(len(g.pool))]
+	}
+	return g.pool[r.Intn(len(g.pool))]
+}
